@@ -95,6 +95,11 @@ CLAIMS = {
    text="Generated machines (1-4 states, two payload fields, overlapping guards, fallbacks, loops) are run on inputs 0..7 with tracing on; every traced transition (arm index, next state, payload values) and the output must equal the reference simulation; ill-formed machines (wrong argument kind, undeclared target, declared but unimplemented state) must be rejected; non-terminating machines must stop with an error after exactly max_steps step events.",
    note="Trace parsing relies on the rendered event messages (arm[i] ... -> :State(...) u64(@addr:value)); an unparsable transition event makes the case inconclusive, never a violation.",
    ref="6/C17"),
+ "C18": dict(
+   technique="runtime monitoring: relational-algebra reference joins over canonical rows compared (as multisets over the union of columns, with column kinds) with interpreted join expressions on generated tables; ordered comparison for row selection",
+   text="Pairs of generated tables (1-3 columns, 0-2 shared names, 1-5 rows, duplicate keys so that many-to-many matches occur, five column kinds) are joined with all six operators in symbol and word form; the result must be exactly the relational-algebra multiset of rows, columns that can be missing must be optional kinds and hold the empty value exactly in unmatched rows; selecting rows by index, repeated index vector and mask must return exactly those rows in order.",
+   note="An empty result may be a 0-row table or an error; single-row tables are not selected through a one-element mask (that literal is a scalar).",
+   ref="6/C18"),
 }
 NOT_YET = "not claimed yet: the monitor for this property is still being built in this session (see DESIGN.md section 6 for the planned check)"
 
